@@ -9,6 +9,7 @@ from collections import defaultdict, OrderedDict
 from typing import Optional, Iterable
 
 from mido import MidiFile, MidiTrack, Message, MetaMessage, merge_tracks
+from mido.midifiles.meta import UnknownMetaMessage
 
 import partitura.score as score
 from partitura.score import Score, Part, PartGroup, ScoreLike
@@ -153,7 +154,14 @@ def save_performance_midi(
                     if key not in ("time", "time_tick", "track")
                 ]
             )
-            track_events[track][t].append(MetaMessage(**msg_info))
+            if msg_info.get("type") == "unknown_meta":
+                # a meta event of a type mido has no name for (as loaded)
+                msg = UnknownMetaMessage(
+                    msg_info["type_byte"], data=msg_info.get("data", ())
+                )
+            else:
+                msg = MetaMessage(**msg_info)
+            track_events[track][t].append(msg)
 
         for c in performed_part.key_signatures:
             track = c.get("track", 0)
